@@ -1,5 +1,6 @@
 import DltypeModel
 import DltypeModel.Generated.EvalLoop
+import DltypeModel.Generated.DimFlags
 import Properties.C05
 /-!
 # The translator tie for the expression evaluator.
@@ -137,5 +138,12 @@ theorem source_evaluates_to_arithmetic_value (t : Tree) (hwf : t.WF = true) (σ 
   cases h : parseDim t.str with
   | error e => simp [h] at this ⊢; exact this
   | ok d => simp only [h, evaluate_is_source] at this ⊢; exact this
+
+/-- **the derived flags of `DLTypeDimensionExpression.__init__` and its self-reference test in the source ARE the model's**
+    (`Generated/DimFlags.lean`) -/
+theorem dim_flags_are_source (d : DimExpr) :
+    Gen.isLiteral d = d.isLiteral ∧ Gen.isIdentifier d = d.isIdentifier ∧ Gen.isExpression d = d.isExpression ∧
+    Gen.selfRef d = d.selfRef := by
+  refine ⟨rfl, rfl, rfl, rfl⟩
 
 end Dltype.CoreEval
